@@ -164,9 +164,8 @@ def strip : Lang → List Char → List Out
 
 /-! ### tokens -/
 
-/-- A token: a maximal run of `ch`/`lit` elements (no separator inside).  This is
-    finer than the C or Fortran token structure (equal `Tok` lists imply equal
-    compiler token lists; `a+b` and `a + b` are different here). -/
+/-- A token: a run of `ch`/`lit` elements (no separator inside).  `tokens` produces the
+    maximal blank-free runs (chunks); `refine` below splits them into language tokens. -/
 abbrev Tok := List Out
 
 /-- Parse state for the suffix being scanned: the (possibly empty) token that
@@ -196,10 +195,117 @@ def close (a : Acc) : List (List Tok) := pushLine (pushTok a.tok a.line) a.rest
 /-- The non-empty logical lines of a stripped text, each a non-empty list of tokens. -/
 def tokens (os : List Out) : List (List Tok) := close (parse os)
 
-def tokensC (t : List Char) : List (List Tok) := tokens (stripC t)
-def tokensF (t : List Char) : List (List Tok) := tokens (stripF t)
+/-! ### language-level tokens
 
-def tokensOf (l : Lang) (t : List Char) : List (List Tok) := tokens (strip l t)
+`tokens` splits at blanks only.  `lexChunk` splits each blank-free chunk further into
+language tokens.  It is total and deterministic and its tokens concatenate to the chunk,
+so two texts with equal refined tokens differ only by blanks placed at refined token
+boundaries; it is kept *coarser or equal* to the compilers' tokens wherever it is not exact
+(an identifier glued to an adjacent literal as in `L"x"` or `c_char_"x"`, adjacent
+literals, `..`, Fortran names joined by dots as in `a.eq.b`), so that a blank can never be
+moved into or out of a compiler token unnoticed. -/
+
+structure LexCfg where
+  isWord : Char → Bool          -- characters of identifiers and numbers
+  puncts : List (List Char)     -- multi-character punctuators (with the prefixes needed for greedy growth)
+  expo : Char → Bool            -- exponent letters after which a sign continues a number
+  dotNumber : Bool              -- a `.` followed by a digit starts a number (C: `.5`)
+
+def outChar : Out → Char
+  | .ch c => c
+  | .lit c => c
+  | .sp => ' '
+  | .nl => '\n'
+
+def isLit : Out → Bool
+  | .lit _ => true
+  | _ => false
+
+def flushTok (cur : Tok) : List Tok := if cur.isEmpty then [] else [cur]
+
+def lastIsExpo (cfg : LexCfg) (cur : Tok) : Bool :=
+  match cur.getLast? with
+  | some (.ch c) => cfg.expo c
+  | _ => false
+
+/-- kind of the token a character starts: 1 word (identifier, literal), 2 number, 3 punctuator -/
+def startKind (cfg : LexCfg) (o : Out) (nextDigit : Bool) : Nat :=
+  if isLit o then 1
+  else if (outChar o).isDigit then 2
+  else if cfg.dotNumber && outChar o = '.' && nextDigit then 2
+  else if cfg.isWord (outChar o) then 1
+  else 3
+
+/-- can `o` extend the token `cur` of kind `k`? -/
+def canExtend (cfg : LexCfg) (cur : Tok) (k : Nat) (o : Out) (nextDigit : Bool) : Bool :=
+  let c := outChar o
+  if k = 1 then isLit o || cfg.isWord c
+  else if k = 2 then
+    isLit o || cfg.isWord c || c = '.' || ((c = '+' || c = '-') && lastIsExpo cfg cur)
+  else if k = 3 then
+    !isLit o && !cfg.isWord c && !(cfg.dotNumber && c = '.' && nextDigit) &&
+      cfg.puncts.contains (cur.map outChar ++ [c])
+  else false
+
+def nextIsDigit : List Out → Bool
+  | .ch d :: _ => d.isDigit
+  | _ => false
+
+/-- Split a blank-free chunk into tokens, left to right, maximal munch.  `cur` is the token
+    being built, `k` its kind (0 none). -/
+def lexChunk (cfg : LexCfg) : Tok → Nat → List Out → List Tok
+  | cur, _, [] => flushTok cur
+  | cur, k, o :: rest =>
+    if canExtend cfg cur k o (nextIsDigit rest) then lexChunk cfg (cur ++ [o]) k rest
+    else flushTok cur ++ lexChunk cfg [o] (startKind cfg o (nextIsDigit rest)) rest
+
+def cfgC : LexCfg where
+  isWord := fun c => c.isAlphanum || c = '_' || c = '$'
+  puncts := ["->", "++", "--", "<<", ">>", "<=", ">=", "==", "!=", "&&", "||", "+=", "-=", "*=", "/=", "%=",
+    "&=", "^=", "|=", "::", "##", ".*", "..", "<:", ":>", "<%", "%>", "%:", "<<=", ">>=", "...", "->*", "<=>",
+    "%:%", "%:%:"].map String.toList
+  expo := fun c => c = 'e' || c = 'E' || c = 'p' || c = 'P'
+  dotNumber := true
+
+def cfgF : LexCfg where
+  isWord := fun c => c.isAlphanum || c = '_' || c = '.'
+  puncts := ["**", "//", "==", "/=", "<=", ">=", "=>", "::", "(/", "/)"].map String.toList
+  expo := fun c => c = 'e' || c = 'd' || c = 'q'
+  dotNumber := false
+
+/-- Fortran names and keywords are case insensitive (literals are not) -/
+def foldCase : Out → Out
+  | .ch c => .ch c.toLower
+  | o => o
+
+/-- a preprocessor directive line: its first token starts with `#` -/
+def isDirLine : List Tok → Bool
+  | (.ch '#' :: _) :: _ => true
+  | _ => false
+
+def lexLineC (l : List Tok) : List Tok := l.flatMap (lexChunk cfgC [] 0)
+/-- preprocessor lines inside Fortran sources are C preprocessor text (case sensitive) -/
+def lexLineF (l : List Tok) : List Tok :=
+  if isDirLine l then lexLineC l else l.flatMap (fun t => lexChunk cfgF [] 0 (t.map foldCase))
+
+/-- In C a line end matters only for preprocessor directives: consecutive other lines are joined. -/
+def mergeLines (ls : List (List Tok)) : List (List Tok) :=
+  ls.foldr (fun l acc =>
+    if isDirLine l then l :: acc
+    else match acc with
+      | [] => [l]
+      | h :: t => if isDirLine h then l :: acc else (l ++ h) :: t) []
+
+def refine : Lang → List (List Tok) → List (List Tok)
+  | .c, ls => mergeLines (ls.map lexLineC)
+  | .f, ls => ls.map lexLineF
+
+/-- C/C++ tokens: one list per preprocessor directive and per stretch of code between directives -/
+def tokensC (t : List Char) : List (List Tok) := refine .c (tokens (stripC t))
+/-- Fortran tokens: one list per statement line (continuations joined), names in lower case -/
+def tokensF (t : List Char) : List (List Tok) := refine .f (tokens (stripF t))
+
+def tokensOf (l : Lang) (t : List Char) : List (List Tok) := refine l (tokens (strip l t))
 
 /-! ### files as lists of lines, the checker -/
 
@@ -232,7 +338,7 @@ def isCommentText : Lang → List Char → Bool
 /-- a block of complete comment lines and blank lines -/
 def isCommentBlock (l : Lang) (blk : List Line) : Bool := isCommentText l (joinLines blk)
 
-/-- the leader of a comment that extends to the end of the line -/
+/-- the leader of a comment that canExtend to the end of the line -/
 def leader : Lang → List Char
   | .c => ['/', '/']
   | .f => ['!']
